@@ -648,7 +648,9 @@ pub fn judge(c: &Case, r: &Result<CaseResult, String>) -> Option<(String, String
                     ),
                 ));
             }
-            others_clean(r, &[])
+            // the invalid-fields error is the documented answer to this fault wherever it is
+            // noticed: de-duplication and path resolution may report it too
+            others_clean(r, &["InvalidFields"])
         }
         Some(Fault::NoCompactPath) | Some(Fault::NoBitsPath) => {
             let compact = matches!(c.fault, Some(Fault::NoCompactPath));
@@ -760,14 +762,19 @@ pub fn judge(c: &Case, r: &Result<CaseResult, String>) -> Option<(String, String
     }
 }
 
-fn others_clean(r: &CaseResult, _allow: &[&str]) -> Option<(String, String)> {
-    if r.dedup != Out::Ok {
+fn others_clean(r: &CaseResult, allow: &[&str]) -> Option<(String, String)> {
+    let allowed = |o: &Out| match o {
+        Out::Ok => true,
+        Out::Err { variant, .. } => allow.contains(variant),
+        Out::Panic(_) => false,
+    };
+    if !allowed(&r.dedup) {
         return Some((
             "fault:dedup-unexpected".into(),
             format!("ensure_unique_type_paths: {}", r.dedup.short()),
         ));
     }
-    if let Some((id, o)) = r.resolve.iter().enumerate().find(|(_, o)| **o != Out::Ok) {
+    if let Some((id, o)) = r.resolve.iter().enumerate().find(|(_, o)| !allowed(o)) {
         return Some((
             "fault:resolve-unexpected".into(),
             format!("resolve_type_path({id}): {}", o.short()),
